@@ -5,10 +5,11 @@ import "gosym/term"
 // Intrinsics added for the C11 (aggregation) harnesses: non-forking boolean connectives
 // and float "same result" of the harness runtime (rt/vrt/vrt.go: Or, And, SameF64).
 // Each builds exactly the term that the Go body of the function computes:
-//   Or(a...)      = a0 ∨ a1 ∨ …        (false when empty)
-//   And(a...)     = a0 ∧ a1 ∧ …        (true when empty)
-//   SameF64(a, b) = fp.eq(a,b) ∨ (isNaN(a) ∧ isNaN(b)); for one and the same term t this
-//                   is fp.eq(t,t) ∨ isNaN(t) = true, decided without the solver.
+//
+//	Or(a...)      = a0 ∨ a1 ∨ …        (false when empty)
+//	And(a...)     = a0 ∧ a1 ∧ …        (true when empty)
+//	SameF64(a, b) = fp.eq(a,b) ∨ (isNaN(a) ∧ isNaN(b)); for one and the same term t this
+//	                is fp.eq(t,t) ∨ isNaN(t) = true, decided without the solver.
 const vrtPkg = "github.com/influxdata/kapacitor/zz_vrt."
 
 func init() {
